@@ -222,5 +222,7 @@ func (c *Ctx) verifyBeforeDestroy(prefix string) {
 		"the existing LTX files are removed only after the incoming snapshot passed ltx verification", "a truncated or corrupt body with a snapshot header must be rejected without touching the transaction log")
 	c.Before(prefix+"/destroy-after-copy", wl, rm, p.PlainCalls("io.Copy"), 1, "... and only after the body was copied completely", "")
 	c.Guarded(prefix+"/destroy-after-sync", wl, rm, gs(G(`\(nil == os\.\(\*File\)\.Sync\(.*\)\)|\(os\.\(\*File\)\.Sync\(.*\) == nil\)`, true)), 1, "... and synced", "")
+	c.GuardedPaths(prefix+"/page-size-before-create", wl, p.PlainCalls("litefs.OS.Create"), [][]*Guard{{GP("(0 == p0.pageSize)", true), G(`\(.*\.PageSize == p0\.pageSize\)|\(p0\.pageSize == .*\.PageSize\)`, true)}}, 1,
+		"the incoming file is written only when the database's page size is unknown or equals the file's", "a file with another page size is published, the fatal apply fails in writeDatabasePage and the node exits (POST /tx from the lock holder, restore from backup)")
 	c.Guarded(prefix+"/destroy-snapshot-only", wl, rm, gs(GP("ltx.(*Header).IsSnapshot(@@)", true)), 1, "only a snapshot (MinTXID 1) replaces the chain", "")
 }
